@@ -72,6 +72,10 @@ pub enum Case {
     VsAlice { local: Vec<Small>, peer: Vec<Small>, script: Vec<Sym> },
     /// real initiator and real acceptor through a proxy; fault = (before frame m, on side A?, kind)
     Faulty { a: Vec<Small>, b: Vec<Small>, fault: Option<(u8, bool, u8)> },
+    /// two real live actors (the C11 interpreter, lifecycle mode: the documents exist in both stores): requests are
+    /// declined (document held but not synced, already syncing), lost, or their sessions fail; judged here only for
+    /// "a declined request changes nothing in the store"
+    Live(crate::props::c11::Case),
 }
 
 fn key(k: u8) -> Vec<u8> {
@@ -190,7 +194,12 @@ impl Prop for C10 {
         let vs_alice = (vec(small(), 0..=5), vec(small(), 0..=6), vec(sym(), 0..=6)).prop_map(|(local, peer, script)| Case::VsAlice { local, peer, script });
         let faulty = (vec(small(), 0..=8), vec(small(), 0..=8), prop::option::weighted(0.85, (1u8..=10, any::<bool>(), 0u8..FAULT_KINDS)))
             .prop_map(|(a, b, fault)| Case::Faulty { a, b, fault });
-        prop_oneof![2 => vs_bob, 1 => vs_alice, 2 => faulty].boxed()
+        let live = {
+            use crate::props::c11::{Case as L, Pick};
+            (any::<bool>(), vec((any::<u16>(), any::<u8>()).prop_map(|(which, flavour)| Pick { which, flavour }), 1..=24), 2u8..=4, vec(any::<u16>(), 0..8))
+                .prop_map(|(swap, picks, max_dials, drain)| Case::Live(L::Random { swap, picks, max_dials, drain, lifecycle: true }))
+        };
+        prop_oneof![20 => vs_bob, 10 => vs_alice, 20 => faulty, 3 => live].boxed()
     }
 
     fn check(ctx: &mut Ctx, case: &Case) -> Outcome {
@@ -204,6 +213,7 @@ impl Prop for C10 {
                 Case::VsBob { local, peer, accept, script } => vs_bob(ctx, local, peer, *accept, script, &mut trial),
                 Case::VsAlice { local, peer, script } => vs_alice(ctx, local, peer, script, &mut trial),
                 Case::Faulty { a, b, fault } => faulty(ctx, a, b, *fault, &mut trial),
+                Case::Live(c) => live(ctx, c, &mut trial),
             };
             verif::set_actor_exit_pause_ms(0);
             match r {
@@ -242,6 +252,26 @@ impl Prop for C10 {
     fn worker_budget_s(tier: Tier) -> u64 {
         tier.pick(1200, 7200)
     }
+}
+
+/// The C11 interpreter on two real live actors; its own invariants are C11's business and are not judged here.
+fn live(ctx: &mut Ctx, c: &crate::props::c11::Case, o: &mut Outcome) -> R<()> {
+    o.class("live-actors");
+    let mut inner = Outcome::default();
+    let note = crate::props::c11::run(ctx, c, &mut inner)?;
+    if inner.failed() {
+        o.class("live-actors/skipped(C11-invariant-failed)");
+        return Ok(());
+    }
+    o.count("declined_lost_or_failed_sessions_on_live_actors", note.declined_or_failed_sessions_observed);
+    if note.declined_or_failed_sessions_observed > 0 {
+        o.nontrivial = true;
+        o.class("live-actors/declined-lost-or-failed-session");
+    }
+    if let Some(v) = note.violation {
+        o.fail("C10/declined-or-failed-session-left-a-trace-in-the-store", v);
+    }
+    Ok(())
 }
 
 fn to_entry(s: &Small) -> SignedEntry {
